@@ -419,8 +419,16 @@ def props(b, owner, plist, pvar, len_delta=0):
             if pid != 0x26 and pid not in seen:
                 b.chk("%s.%s.is_none()" % (pvar, PROP_FIELD[pid]), "prop.%s.absent" % PROPS[pid][0])
     st = PROPS_STRUCT[owner]
-    fields = ", ".join("%s: %s" % kv for kv in assigns.items())
-    ctor = "mp::v5::%s { %s%suser_properties: vec![%s], ..Default::default() }" % (
+    # every field spelled out (no `..Default::default()`: dropping the temporary default value trips a
+    # spurious dealloc-size check in CBMC's heap model for PublishProperties / WillProperties)
+    allf = []
+    for pid in ALLOWED[owner]:
+        if pid == 0x26:
+            continue
+        f = PROP_FIELD[pid]
+        allf.append("%s: %s" % (f, assigns.get(f, "None")))
+    fields = ", ".join(allf)
+    ctor = "mp::v5::%s { %s%suser_properties: vec![%s] }" % (
         st, fields, ", " if fields else "", ", ".join(users))
     return ctor, len(varint_bytes(declared)) + total
 
@@ -1110,4 +1118,94 @@ def emit_dec(sh, prop="C04", bad=None, frontend="poll", extra_checks=True):
     unwind = max(max_loop(sh), 6) + 2
     meta = {"name": fn, "family": fam, "type": sh.typ, "shape": sh.name, "frame_len": L, "class": "all-valid" if bad is None else "%s#%d invalid" % bad,
             "constraints": [c[1] for c in b.cons], "assumes": b.assumes}
+    return fn, "\n".join(lines) + "\n", b.wbytes, unwind, meta
+
+
+STUBS_ENCODE = [
+    "#[kani::stub(simdutf8::basic::from_utf8, crate::model::from_utf8_class_stub)]",
+    "#[kani::stub(mqtt_proto_sync::TopicName::is_invalid, crate::model::topic_name_class_stub)]",
+    "#[kani::stub(mqtt_proto_sync::TopicFilter::is_invalid, crate::model::topic_filter_class_stub)]",
+]
+
+
+def body_ctor(sh):
+    """ctor of the body struct (None for packet types without one)"""
+    c = sh.ctor
+    pre = "mp::%s::Packet::%s(" % (sh.fam, sh.typ)
+    if not c.startswith(pre) or sh.fam + sh.typ in ("v3Puback", "v3Pubrec", "v3Pubrel", "v3Pubcomp", "v3Unsuback", "v3Connack"):
+        return None
+    return c[len(pre):-1]
+
+
+def emit_enc(sh, prop="C10", want_bytes=True, want_len=True, level="body"):
+    """encode-direction scenario: value built from symbolic fields (valid domain assumed) ->
+    declared lengths and emitted bytes compared with the spec layout.
+    level 'body'  : the body struct as a local, through the streaming encoder (Encodable::encode into an
+                    array sink) -- used for every shape;
+    level 'packet': Packet::encode / Packet::encode_len (fixed header + glue), used for one small shape per
+                    packet type and for the types without a body struct.  (Reading a large value back out of
+                    the Packet enum costs symbolic execution an order of magnitude more than the local.)"""
+    assert sh.ctor is not None and not sh.malformed_by_shape
+    b = sh.b
+    fam = sh.fam
+    L = sh.total_len
+    H = len(sh.header)
+    BL = sh.body_len
+    bc = body_ctor(sh)
+    if bc is None:
+        level = "packet"
+    fn = "%s_%s__enc%s" % (fam, sh.name, "p" if level == "packet" else "")
+    lines = ["pub fn %s(s: &mut Src) {" % fn]
+    lines += ["    " + d for d in b.draws]
+    lines += ["    " + d for d in b.pre]
+    for a in b.assumes + b.enc_assumes:
+        lines.append("    vassume!(%s);" % a)
+    # the valid domain of the property: every well-formedness constraint holds
+    for (expr, key, err, kind, region) in b.cons:
+        if expr != "true":
+            lines.append("    vassume!(%s);" % expr)
+    lines.append("    set_classes(usize::MAX, usize::MAX, usize::MAX);")
+    lines.append("    " + frame_decl(sh))
+    if level == "body":
+        lines.append("    let p = %s;" % bc)
+        lines.append("    let mut sink = ArrSink::<%d>::new();" % (BL + 4))
+        lines.append("    let r = mp::Encodable::encode(&p, &mut sink);")
+        lines.append('    vassert!(r.is_ok(), "%s|body.encode_err|body encoder failed on an infallible sink");' % prop)
+        if want_len:
+            lines.append('    vassert!(sink.len == %d && !sink.overflow, "%s|body.written.%s|bytes written by the body encoder differ from the specification\'s body size");' % (BL, prop, sh.typ.lower()))
+            lines.append('    vassert!(mp::Encodable::encode_len(&p) == %d, "%s|body.encode_len.%s|body encode_len differs from the specification\'s body size (and from the bytes written)");' % (BL, prop, sh.typ.lower()))
+        if want_bytes:
+            lines.append('    vassert!(sink.len == %d && eq_bytes(&sink.buf[..%d], &frame[%d..]), "%s|body.bytes.%s|bytes written by the body encoder differ from the specification\'s wire image");' % (BL, BL, H, prop, sh.typ.lower()))
+        lines.append('    vcover!(true, "encoded");')
+        lines.append("    done(r);")
+        lines.append("    done(p);")
+        lines.append("}")
+        unwind = max(max_loop(sh), BL, 6) + 2
+        meta = {"name": fn, "family": fam, "type": sh.typ, "shape": sh.name, "frame_len": L, "direction": "encode/body"}
+        return fn, "\n".join(lines) + "\n", b.wbytes, unwind, meta
+    lines.append("    let pkt = %s;" % sh.ctor)
+    if want_len:
+        lines.append("    match pkt.encode_len() {")
+        lines.append('        Ok(n) => { vassert!(n == %d, "%s|packet.encode_len|Packet::encode_len differs from the size of the wire image the specification prescribes"); }' % (L, prop))
+        lines.append('        Err(e) => { vassert!(false, "%s|packet.encode_len_err|Packet::encode_len fails on a valid packet"); done(e); }' % prop)
+        lines.append("    }")
+    lines.append("    match pkt.encode() {")
+    lines.append("        Ok(vb) => {")
+    lines.append("            let bytes: &[u8] = vb.as_ref();")
+    if want_len:
+        lines.append('            vassert!(bytes.len() == %d, "%s|packet.len|number of bytes emitted differs from the specification\'s size (and from encode_len)");' % (L, prop))
+        hdr = sh.header
+        conds = " && ".join("bytes[%d] == 0x%02x" % (i, x) for i, x in enumerate(hdr))
+        lines.append('            vassert!(bytes.len() >= %d && %s, "%s|packet.header|fixed header (control byte, minimal remaining length) wrong");' % (H, conds, prop))
+    if want_bytes:
+        lines.append('            vassert!(eq_bytes(bytes, &frame), "%s|packet.bytes.%s|emitted bytes differ from the wire image the specification prescribes for these field values");' % (prop, sh.typ.lower()))
+    lines.append('            vcover!(true, "encoded");')
+    lines.append("            done(vb);")
+    lines.append("        }")
+    lines.append('        Err(e) => { vassert!(false, "%s|packet.encode_err|Packet::encode fails on a valid packet"); done(e); }' % prop)
+    lines.append("    }")
+    lines.append("    done(pkt);")
+    lines.append("}")
+    unwind = max(max_loop(sh), L, 6) + 2
+    meta = {"name": fn, "family": fam, "type": sh.typ, "shape": sh.name, "frame_len": L, "direction": "encode/packet"}
     return fn, "\n".join(lines) + "\n", b.wbytes, unwind, meta
